@@ -8,6 +8,10 @@
 //   n<k><X><Y>  new object k, the thread holds one external shared_ptr;  X = what ~Obj does, Y = what the callback does:
 //               p nothing | a add a fresh object to the same container | s size() | d destroyObjects()
 //               Y only: r re-add the element itself once (resurrection) | t throw
+//   l<k>o<j>    new handle k that ALIASES object j (the thread must hold a reference to j): a shared_ptr<Obj> with the same get()
+//               as j's handles but a control block of its own (aliasing constructor over a keep-alive record) — a "lease" on j.
+//               For the container it is an object of its own: its own owners, its own reaping, its own callback; its
+//               "destructor" is the destruction of the keep-alive record (pdt k / pde k).  The handle is never dereferenced.
 //   u<k> duplicate the thread's reference | x<k> drop one reference | a<k> add (copy) | m<k> add (move: gives the reference away)
 //   d destroyObjects() | g<ms> destroyObjects(ms) | s size()
 // markers
@@ -35,6 +39,8 @@ struct G {
     std::map<int, std::map<int, std::vector<Ptr>>> refs;  // tid -> object -> external references held by the script
     std::map<int, int> dtors;                    // object -> number of destructor runs
     std::map<int, int> lives;                    // object -> resurrections left
+    // control block -> id of the alias handle that owns it (handles made by op l)
+    std::map<std::weak_ptr<void>, int, std::owner_less<std::weak_ptr<void>>> alias;
 };
 G g;
 
@@ -104,8 +110,49 @@ struct Obj {
     }
 };
 
+// the keep-alive record behind an alias handle: its destruction is the "destructor" of that handle's object
+struct Keeper {
+    int id;
+    explicit Keeper(int i): id(i) {}
+    Keeper(const Keeper&) = delete;
+    ~Keeper()
+    {
+        verif::emit("pdt " + std::to_string(id));
+        if (++g.dtors[id] > 1) {
+            verif::fail("object " + std::to_string(id) + " destroyed twice");
+        }
+        if (ext_total(id) > 0) {
+            verif::fail("object " + std::to_string(id) + " destroyed while the script still holds a reference");
+        }
+        if (lock_held_by_me()) {
+            verif::fail("destructor of object " + std::to_string(id) + " runs under destructionLock");
+        }
+        verif::emit("pde " + std::to_string(id));
+    }
+};
+
+// identity of a handle = its control block; -1: an ordinary handle (identity = the object it points to)
+int alias_id(const Ptr& p)
+{
+    auto it = g.alias.find(std::weak_ptr<void>(p));
+    return it == g.alias.end() ? -1 : it->second;
+}
+
 void callback(Ptr& p)
 {
+    int al = alias_id(p);
+    if (al >= 0) {
+        // an alias handle is never dereferenced (the object whose address it carries may be gone)
+        verif::emit("ucb " + std::to_string(al));
+        if (lock_held_by_me()) {
+            verif::fail("callback for object " + std::to_string(al) + " runs under destructionLock");
+        }
+        if (ext_total(al) > 0) {
+            verif::fail("callback for object " + std::to_string(al) + " while the script still holds a reference");
+        }
+        verif::emit("uce " + std::to_string(al));
+        return;
+    }
     int k = p->id;
     verif::emit("ucb " + std::to_string(k));
     if (lock_held_by_me()) {
@@ -138,6 +185,18 @@ Ptr do_new(int k, char x, char y)
     if (y == 'r') {
         g.lives[k] = 1;
     }
+    return p;
+}
+
+Ptr do_alias(int k, const Ptr& target)
+{
+    auto keeper = std::make_shared<Keeper>(k);
+    Ptr p(keeper, target.get());   // aliasing constructor: shares ownership of the record, points at the target object
+    g.alias[std::weak_ptr<void>(p)] = k;
+    keeper.reset();
+    verif::emit("new " + std::to_string(k));
+    g.refs[verif::self()][k].push_back(p);
+    g.dtors[k];
     return p;
 }
 
@@ -190,6 +249,18 @@ void run_op(const std::string& op)
         char x = e < op.size() ? op[e] : 'p';
         char y = e + 1 < op.size() ? op[e + 1] : 'p';
         do_new(k, x, y);
+        return;
+    }
+    if (c == 'l') {
+        size_t o = op.find('o');
+        int k = atoi(op.substr(1, o - 1).c_str());
+        int j = atoi(op.substr(o + 1).c_str());
+        auto& tj = g.refs[me][j];
+        if (tj.empty()) {
+            verif::fail("script error: thread holds no reference to object " + std::to_string(j));
+            return;
+        }
+        do_alias(k, tj.back());
         return;
     }
     if (c == 'd') {
@@ -323,8 +394,12 @@ static Script gen(Rng& r, int size)
                 held[k] = 1;
             } else if (c <= 5 && !have.empty()) {
                 int k = r.pick(have);
-                int w = r.below(8);
-                if (w == 0) {
+                int w = r.below(9);
+                if (w == 8) {
+                    int a = next++;
+                    ops.push_back("l" + std::to_string(a) + "o" + std::to_string(k));
+                    held[a] = 1;
+                } else if (w == 0) {
                     ops.push_back("u" + std::to_string(k));
                     ++held[k];
                 } else if (w <= 2) {
@@ -359,6 +434,11 @@ int main(int argc, char** argv)
         parse("l:1:1;a0,x0,d;x0,d,s;d,d"),
         // the same pointer twice: never selected, left to the vector's destruction
         parse("l:1:0;n1pp,a1,m1,d,s"),
+        // alias handles (same address, own control block): each is an object of its own for the container
+        parse("l:1:0;n1pp,l2o1,m1,a2,d,s,x2,d,s"),
+        parse("l:1:0;n1pp,l2o1,u2,m1,a2,d,s,x2,d,x2,d,s"),
+        parse("l:0:0;n1pp,l2o1,l3o1,m2,a3,a1,d,x1,d,s,x3,d,s"),
+        parse("s:1:0;n1pp,l2o1,m1,a2,d,s,x2,d,s"),
         // re-entrant destructors and callbacks
         parse("l:1:0;n1ap,n2sp,n3dp,m1,m2,m3,d,d,s"),
         parse("l:1:0;n1pa,n2ps,n3pd,n4pp,m1,m2,m3,d,m4,d,s"),
